@@ -1,7 +1,1324 @@
-//! C06 — correspondence harness (stub; see /verif/AGENT_GUIDE.md).
+//! C06 — rewards, fee split, DAO field: correspondence harness.
+//!
+//! Two streams (`opts.extra[0]`): `arith` (default) and `chain`.
+//!
+//! ## `arith`: the real arithmetic, one call per op line, against `Model/Dao.lean` / `Model/Reward.lean`
+//!
+//! ```text
+//! ratio <fee> <numer> <denom>            Capacity::safe_mul_ratio + safe_sub      -> p=<v|err> c=<v|err>
+//! pack <ar> <c> <s> <u>                  ckb_dao_utils::pack_dao_data             -> <64 hex>
+//! extract <64 hex>                       ckb_dao_utils::extract_dao_data (+repack)-> ar c s u <hex>
+//! occupied <cell>                        CellMeta::occupied_capacity              -> ok <v> | err-overflow
+//! withdraw <cell> <dn> <da> <wn> <wa>    DaoCalculator::calculate_maximum_withdraw-> ok <v> | err-* | panic
+//! fee <tx>                               DaoCalculator::transaction_fee           -> ok <v> | err-* | panic
+//! primary <start> <len> <base> <rem> <n> DaoCalculator::primary_block_reward      -> ok <v> | ...
+//! secondary <ser> <start> <len> <base> <rem> <n> <parent_c> <parent_u>
+//!                                        DaoCalculator::secondary_block_reward    -> ok <v> | ...
+//! dao <ser> <start> <len> <base> <rem> <parent_number> <ar> <c> <s> <u> <txs>
+//!                                        DaoCalculator::dao_field_with_current_epoch
+//!                                                                -> ok <hex> ar c s u | err-* | panic
+//! cell  = cap:lockArgsLen:typeArgsLen|n:dataBytes
+//! input = <kind>:<cell>[:depNum:depAr:wdNum:wdAr]     kind p plain, d dao deposit cell (plain),
+//!         s satoshi gift cell, g1/g2/g3 near misses of the satoshi rule (plain), w dao withdrawing cell
+//! tx    = <input>,<input>…|<cell>,<cell>…   (empty list `-`);  txs = tx;tx;…
+//! ```
+//! The calculator runs over a mock data loader (the three `ckb_traits` provider traits) holding
+//! the synthetic headers / epoch exts of the op.
+//!
+//! ## `chain`: `RewardCalculator::block_reward_to_finalize` on a real `ChainDB` (RocksDB in tmpfs)
+//!
+//! ```text
+//! cfg <close> <far> <numer> <denom> <ser>          new consensus, chain reset           -> ok
+//! blk <n> <props> <uncle props> <commit ids> <fees> <start> <len> <base> <rem> <ar> <c> <s> <u>
+//!                                                  insert+attach block n, ext, epoch    -> ok
+//! reward <p>                                       block_reward_to_finalize(header p)
+//!                  -> ok target=<t> total=… primary=… secondary=… txfee=… proposal=… | err-* | panic
+//! ```
+//! Oracles (independent of the model, u128 arithmetic): see `oracle_*` below.
 use crate::common::*;
+use ckb_chain_spec::consensus::{Consensus, ConsensusBuilder, ProposalWindow};
+use ckb_dao::DaoCalculator;
+use ckb_dao_utils::{DaoError, extract_dao_data, pack_dao_data};
+use ckb_db::RocksDB;
+use ckb_db_schema::COLUMNS;
+use ckb_reward_calculator::RewardCalculator;
+use ckb_store::{ChainDB, ChainStore};
+use ckb_traits::{CellDataProvider, EpochProvider, HeaderProvider};
+use ckb_types::{
+    bytes::Bytes,
+    core::{
+        BlockBuilder, BlockExt, BlockNumber, BlockView, Capacity, EpochExt, HeaderBuilder,
+        HeaderView, Ratio, ScriptHashType, TransactionBuilder, TransactionInfo, TransactionView,
+        EpochNumberWithFraction,
+        cell::{CellMeta, CellMetaBuilder, ResolvedTransaction},
+    },
+    packed::{self, Byte32, CellInput, CellOutput, CellbaseWitness, OutPoint, Script, WitnessArgs},
+    prelude::*,
+};
+use std::collections::{HashMap, HashSet};
+use std::panic::{AssertUnwindSafe, catch_unwind};
+use std::path::PathBuf;
 
-pub fn run(_opts: &Opts) {
-    eprintln!("C06: harness not implemented in this crate");
-    std::process::exit(2);
+const BS: u128 = 100_000_000; // shannons per byte (RFC 2 / RFC 19), used by the oracle only
+
+// ------------------------------------------------------------------------------------------ specs
+
+#[derive(Clone, Debug)]
+struct CellS {
+    cap: u64,
+    lock_args: u64,
+    type_args: Option<u64>,
+    data_bytes: u64,
+}
+
+#[derive(Clone, Debug, PartialEq)]
+enum Kind {
+    Plain,
+    Deposit,
+    Sat,
+    G1,
+    G2,
+    G3,
+    W { dn: u64, da: u64, wn: u64, wa: u64 },
+}
+
+#[derive(Clone, Debug)]
+struct InS {
+    cell: CellS,
+    kind: Kind,
+}
+
+#[derive(Clone, Debug)]
+struct TxS {
+    ins: Vec<InS>,
+    outs: Vec<CellS>,
+}
+
+fn fmt_cell(c: &CellS) -> String {
+    format!(
+        "{}:{}:{}:{}",
+        c.cap,
+        c.lock_args,
+        c.type_args.map(|a| a.to_string()).unwrap_or_else(|| "n".into()),
+        c.data_bytes
+    )
+}
+
+fn fmt_in(i: &InS) -> String {
+    let k = match &i.kind {
+        Kind::Plain => "p",
+        Kind::Deposit => "d",
+        Kind::Sat => "s",
+        Kind::G1 => "g1",
+        Kind::G2 => "g2",
+        Kind::G3 => "g3",
+        Kind::W { .. } => "w",
+    };
+    match &i.kind {
+        Kind::W { dn, da, wn, wa } => format!("{}:{}:{}:{}:{}:{}", k, fmt_cell(&i.cell), dn, da, wn, wa),
+        _ => format!("{}:{}", k, fmt_cell(&i.cell)),
+    }
+}
+
+fn fmt_list<T>(xs: &[T], f: impl Fn(&T) -> String, sep: &str) -> String {
+    if xs.is_empty() { "-".into() } else { xs.iter().map(f).collect::<Vec<_>>().join(sep) }
+}
+
+fn fmt_tx(t: &TxS) -> String {
+    format!("{}|{}", fmt_list(&t.ins, fmt_in, ","), fmt_list(&t.outs, fmt_cell, ","))
+}
+
+fn fmt_txs(ts: &[TxS]) -> String {
+    fmt_list(ts, fmt_tx, ";")
+}
+
+fn num(s: &str) -> u64 {
+    if let Some(h) = s.strip_prefix("0x") { u64::from_str_radix(h, 16).expect("hex number") } else { s.parse().expect("number") }
+}
+
+fn parse_cell(fs: &[&str]) -> CellS {
+    assert!(fs.len() == 4, "malformed cell");
+    CellS {
+        cap: num(fs[0]),
+        lock_args: num(fs[1]),
+        type_args: if fs[2] == "n" { None } else { Some(num(fs[2])) },
+        data_bytes: num(fs[3]),
+    }
+}
+
+fn parse_in(s: &str) -> InS {
+    let fs: Vec<&str> = s.split(':').collect();
+    assert!(fs.len() >= 5, "malformed input");
+    let cell = parse_cell(&fs[1..5]);
+    let kind = match (fs[0], fs.len()) {
+        ("p", 5) => Kind::Plain,
+        ("d", 5) => Kind::Deposit,
+        ("s", 5) => Kind::Sat,
+        ("g1", 5) => Kind::G1,
+        ("g2", 5) => Kind::G2,
+        ("g3", 5) => Kind::G3,
+        ("w", 9) => Kind::W { dn: num(fs[5]), da: num(fs[6]), wn: num(fs[7]), wa: num(fs[8]) },
+        _ => panic!("malformed input kind"),
+    };
+    InS { cell, kind }
+}
+
+fn parse_list<T>(s: &str, sep: char, f: impl Fn(&str) -> T) -> Vec<T> {
+    if s == "-" { vec![] } else { s.split(sep).map(f).collect() }
+}
+
+fn parse_tx(s: &str) -> TxS {
+    let parts: Vec<&str> = s.split('|').collect();
+    assert!(parts.len() == 2, "malformed tx");
+    TxS {
+        ins: parse_list(parts[0], ',', parse_in),
+        outs: parse_list(parts[1], ',', |c| parse_cell(&c.split(':').collect::<Vec<_>>())),
+    }
+}
+
+fn parse_txs(s: &str) -> Vec<TxS> {
+    parse_list(s, ';', parse_tx)
+}
+
+fn parse_nums(s: &str) -> Vec<u64> {
+    parse_list(s, ',', num)
+}
+
+fn fmt_nums(xs: &[u64]) -> String {
+    fmt_list(xs, |x| x.to_string(), ",")
+}
+
+// ------------------------------------------------------------------------------ mock data loader
+
+#[derive(Default)]
+struct MockDL {
+    headers: HashMap<Byte32, HeaderView>,
+    epochs: HashMap<Byte32, EpochExt>,
+}
+
+impl CellDataProvider for MockDL {
+    fn get_cell_data(&self, _out_point: &OutPoint) -> Option<Bytes> {
+        None
+    }
+    fn get_cell_data_hash(&self, _out_point: &OutPoint) -> Option<Byte32> {
+        None
+    }
+}
+
+impl HeaderProvider for MockDL {
+    fn get_header(&self, hash: &Byte32) -> Option<HeaderView> {
+        self.headers.get(hash).cloned()
+    }
+}
+
+impl EpochProvider for MockDL {
+    fn get_epoch_ext(&self, block_header: &HeaderView) -> Option<EpochExt> {
+        self.epochs.get(&block_header.hash()).cloned()
+    }
+    fn get_block_hash(&self, _number: BlockNumber) -> Option<Byte32> {
+        None
+    }
+    fn get_block_ext(&self, _block_hash: &Byte32) -> Option<BlockExt> {
+        None
+    }
+    fn get_block_header(&self, hash: &Byte32) -> Option<HeaderView> {
+        self.headers.get(hash).cloned()
+    }
+}
+
+// --------------------------------------------------------------------------- building real values
+
+fn script_with_args(len: u64, code: Byte32, ht: ScriptHashType, fill: u8) -> Script {
+    Script::new_builder()
+        .code_hash(code)
+        .hash_type(ht)
+        .args(Bytes::from(vec![fill; len as usize]).pack())
+        .build()
+}
+
+fn other_code_hash() -> Byte32 {
+    Byte32::from_slice(&[0x11u8; 32]).unwrap()
+}
+
+fn build_output(c: &CellS, dao_type: bool, satoshi_lock: bool, consensus: &Consensus) -> CellOutput {
+    let lock = if satoshi_lock {
+        Script::new_builder()
+            .code_hash(other_code_hash())
+            .hash_type(ScriptHashType::Data)
+            .args(Bytes::from(consensus.satoshi_pubkey_hash.0.to_vec()).pack())
+            .build()
+    } else {
+        script_with_args(c.lock_args, other_code_hash(), ScriptHashType::Data, 0xAA)
+    };
+    let type_ = c.type_args.map(|a| {
+        if dao_type {
+            script_with_args(a, consensus.dao_type_hash(), ScriptHashType::Type, 0xBB)
+        } else {
+            script_with_args(a, other_code_hash(), ScriptHashType::Data1, 0xBB)
+        }
+    });
+    CellOutput::new_builder()
+        .capacity(Capacity::shannons(c.cap))
+        .lock(lock)
+        .type_(type_.pack())
+        .build()
+}
+
+fn dao_header(number: u64, ar: u64, salt: u64) -> HeaderView {
+    HeaderBuilder::default()
+        .number(number)
+        .timestamp(salt)
+        .dao(pack_dao_data(ar, Capacity::zero(), Capacity::zero(), Capacity::zero()))
+        .build()
+}
+
+/// Build the resolved transaction of a spec; synthetic headers go into `dl`.
+fn build_rtx(t: &TxS, consensus: &Consensus, dl: &mut MockDL) -> ResolvedTransaction {
+    let mut header_deps: Vec<Byte32> = vec![];
+    let mut witnesses: Vec<packed::Bytes> = vec![];
+    let mut metas: Vec<CellMeta> = vec![];
+    let mut inputs: Vec<CellInput> = vec![];
+    let dep_index = |hd: &mut Vec<Byte32>, h: Byte32| -> u64 {
+        if let Some(i) = hd.iter().position(|x| *x == h) {
+            i as u64
+        } else {
+            hd.push(h);
+            (hd.len() - 1) as u64
+        }
+    };
+    for (i, ins) in t.ins.iter().enumerate() {
+        let genesis_hash = Byte32::from_slice(&[0x77u8; 32]).unwrap();
+        let other_hash = Byte32::from_slice(&[0x78u8; 32]).unwrap();
+        let ep = EpochNumberWithFraction::new(0, 0, 1);
+        let (dao_type, sat_lock, data, info, wit): (bool, bool, Bytes, Option<TransactionInfo>, packed::Bytes) = match &ins.kind {
+            Kind::Plain => (false, false, Bytes::new(), Some(TransactionInfo::new(5, ep, other_hash, 1)), Bytes::new().pack()),
+            Kind::Deposit => {
+                assert!(ins.cell.type_args.is_some(), "malformed: dao cell without type script");
+                (true, false, Bytes::from(vec![0u8; 8]), Some(TransactionInfo::new(5, ep, other_hash, 1)), Bytes::new().pack())
+            }
+            Kind::Sat => {
+                assert!(ins.cell.lock_args == 20, "malformed: satoshi lock args are 20 bytes");
+                (false, true, Bytes::new(), Some(TransactionInfo::new(0, ep, genesis_hash, 0)), Bytes::new().pack())
+            }
+            // genesis, satoshi lock, but not the cellbase
+            Kind::G1 => {
+                assert!(ins.cell.lock_args == 20, "malformed: satoshi lock args are 20 bytes");
+                (false, true, Bytes::new(), Some(TransactionInfo::new(0, ep, genesis_hash, 1)), Bytes::new().pack())
+            }
+            // cellbase, satoshi lock, but not genesis
+            Kind::G2 => {
+                assert!(ins.cell.lock_args == 20, "malformed: satoshi lock args are 20 bytes");
+                (false, true, Bytes::new(), Some(TransactionInfo::new(1, ep, other_hash, 0)), Bytes::new().pack())
+            }
+            // genesis cellbase, other lock
+            Kind::G3 => (false, false, Bytes::new(), Some(TransactionInfo::new(0, ep, genesis_hash, 0)), Bytes::new().pack()),
+            Kind::W { dn, da, wn, wa } => {
+                assert!(ins.cell.type_args.is_some(), "malformed: dao cell without type script");
+                let dep = dao_header(*dn, *da, 1);
+                let wd = dao_header(*wn, *wa, 2);
+                dl.headers.insert(dep.hash(), dep.clone());
+                dl.headers.insert(wd.hash(), wd.clone());
+                let _wi = dep_index(&mut header_deps, wd.hash());
+                let di = dep_index(&mut header_deps, dep.hash());
+                let wit = WitnessArgs::new_builder()
+                    .input_type(Some(Bytes::from(di.to_le_bytes().to_vec())).pack())
+                    .build();
+                (
+                    true,
+                    false,
+                    Bytes::from((*dn).max(1).to_le_bytes().to_vec()),
+                    Some(TransactionInfo::new(*wn, ep, wd.hash(), 1)),
+                    wit.as_bytes().pack(),
+                )
+            }
+        };
+        let output = build_output(&ins.cell, dao_type, sat_lock, consensus);
+        let op = OutPoint::new(Byte32::from_slice(&[0x55u8; 32]).unwrap(), i as u32);
+        let mut meta = CellMetaBuilder::from_cell_output(output, data).out_point(op.clone()).build();
+        meta.data_bytes = ins.cell.data_bytes;
+        meta.transaction_info = info;
+        metas.push(meta);
+        witnesses.push(wit);
+        inputs.push(CellInput::new(op, 0));
+    }
+    let mut tb = TransactionBuilder::default().inputs(inputs).witnesses(witnesses).header_deps(header_deps);
+    for o in &t.outs {
+        tb = tb
+            .output(build_output(o, false, false, consensus))
+            .output_data(Bytes::from(vec![0u8; o.data_bytes as usize]).pack());
+    }
+    ResolvedTransaction {
+        transaction: tb.build(),
+        resolved_cell_deps: vec![],
+        resolved_inputs: metas,
+        resolved_dep_groups: vec![],
+    }
+}
+
+fn epoch_ext(start: u64, len: u64, base: u64, rem: u64) -> EpochExt {
+    EpochExt::new_builder()
+        .number(1)
+        .start_number(start)
+        .length(len)
+        .base_block_reward(Capacity::shannons(base))
+        .remainder_reward(Capacity::shannons(rem))
+        .build()
+}
+
+fn dao_err(e: &DaoError) -> &'static str {
+    match e {
+        DaoError::Overflow => "err-overflow",
+        DaoError::InvalidOutPoint => "err-outpoint",
+        DaoError::InvalidHeader => "err-header",
+        DaoError::InvalidDaoFormat => "err-format",
+        DaoError::ZeroC => "err-zero-c",
+    }
+}
+
+/// Run a closure on the real code; a panic becomes the answer `panic`.
+fn guarded<T>(f: impl FnOnce() -> Result<T, DaoError>) -> Result<T, &'static str> {
+    match catch_unwind(AssertUnwindSafe(f)) {
+        Ok(Ok(v)) => Ok(v),
+        Ok(Err(e)) => Err(dao_err(&e)),
+        Err(_) => Err("panic"),
+    }
+}
+
+// ------------------------------------------------------------------------------------- oracle
+
+fn occ128(c: &CellS) -> u128 {
+    let t = c.type_args.map(|a| (a as u128 + 33) * BS).unwrap_or(0);
+    (8 + c.data_bytes as u128) * BS + (c.lock_args as u128 + 33) * BS + t
+}
+
+/// spec reading of an epoch's per-block primary reward / secondary issuance
+fn spec_g(start: u64, rem: u64, base: u64, n: u64) -> u128 {
+    base as u128 + if (n as u128) >= start as u128 && (n as u128) < start as u128 + rem as u128 { 1 } else { 0 }
+}
+fn spec_g2(start: u64, len: u64, ser: u64, n: u64) -> Option<u128> {
+    if len == 0 {
+        return None;
+    }
+    let r = (ser % len) as u128;
+    Some((ser / len) as u128 + if (n as u128) >= start as u128 && (n as u128) < start as u128 + r { 1 } else { 0 })
+}
+
+// ---------------------------------------------------------------------------------------- exec
+
+struct BlkInfo {
+    block: BlockView,
+    props: HashSet<u64>,
+    ids: Vec<u64>,
+    fees: Vec<u64>,
+    epoch: (u64, u64, u64, u64),
+    dao: (u64, u64, u64, u64),
+}
+
+struct Exec {
+    consensus: Consensus,
+    // chain stream
+    db_dir: Option<PathBuf>,
+    store: Option<ChainDB>,
+    cfg: (u64, u64, u64, u64, u64),
+    blocks: Vec<BlkInfo>,
+    salt: u64,
+    rewards: HashMap<u64, (u128, u128)>, // target -> (txfee, proposal) as answered by the implementation
+}
+
+impl Exec {
+    fn new() -> Exec {
+        Exec {
+            consensus: Consensus::default(),
+            db_dir: None,
+            store: None,
+            cfg: (2, 10, 4, 10, 0),
+            blocks: vec![],
+            salt: 0,
+            rewards: HashMap::new(),
+        }
+    }
+
+    fn store(&mut self, out_dir: &std::path::Path) -> &ChainDB {
+        if self.store.is_none() {
+            let shm = std::path::Path::new("/dev/shm");
+            let dir = if shm.is_dir() {
+                shm.join(format!("verif-c06-{}", std::process::id()))
+            } else {
+                out_dir.join("scratch-c06")
+            };
+            let _ = std::fs::remove_dir_all(&dir);
+            std::fs::create_dir_all(&dir).expect("create scratch dir");
+            let db = RocksDB::open_in(&dir, COLUMNS);
+            self.store = Some(ChainDB::new(db, Default::default()));
+            self.db_dir = Some(dir);
+        }
+        self.store.as_ref().unwrap()
+    }
+
+    fn cleanup(&mut self) {
+        self.store = None;
+        if let Some(d) = self.db_dir.take() {
+            let _ = std::fs::remove_dir_all(d);
+        }
+    }
+
+    /// Execute one op line on the real code; returns the canonical answer.
+    fn exec(&mut self, line: &str, out: &mut Out) -> String {
+        let ts: Vec<&str> = line.split(' ').collect();
+        match ts[0] {
+            "ratio" => {
+                let (fee, n, d) = (num(ts[1]), num(ts[2]), num(ts[3]));
+                let fee_c = Capacity::shannons(fee);
+                let p = fee_c.safe_mul_ratio(Ratio::new(n, d));
+                let c = p.clone().and_then(|p| fee_c.safe_sub(p));
+                // oracle: per fee, proposer and committer shares sum to the fee
+                if let (Ok(p), Ok(c)) = (&p, &c) {
+                    if p.as_u64() as u128 + c.as_u64() as u128 != fee as u128 {
+                        out.oracle_fail("shares-sum", &format!("fee={} p={} c={}", fee, p, c));
+                    }
+                    if d != 0 && (p.as_u64() as u128) != (fee as u128 * n as u128) / d as u128 {
+                        out.oracle_fail("proposer-share", &format!("fee={} ratio={}/{} p={}", fee, n, d, p));
+                    }
+                }
+                let s = |r: &Result<Capacity, _>| r.as_ref().map(|v| v.as_u64().to_string()).unwrap_or_else(|_| "err".into());
+                format!("p={} c={}", s(&p), s(&c))
+            }
+            "pack" => {
+                let (ar, c, s, u) = (num(ts[1]), num(ts[2]), num(ts[3]), num(ts[4]));
+                let b = pack_dao_data(ar, Capacity::shannons(c), Capacity::shannons(s), Capacity::shannons(u));
+                let (ar2, c2, s2, u2) = extract_dao_data(b.clone());
+                if (ar2, c2.as_u64(), s2.as_u64(), u2.as_u64()) != (ar, c, s, u) {
+                    out.oracle_fail("pack-roundtrip", line);
+                }
+                hex(b.as_slice())
+            }
+            "extract" => {
+                let bytes: Vec<u8> = (0..32).map(|i| u8::from_str_radix(&ts[1][2 * i..2 * i + 2], 16).expect("hex")).collect();
+                let b = Byte32::from_slice(&bytes).expect("32 bytes");
+                let (ar, c, s, u) = extract_dao_data(b.clone());
+                let back = pack_dao_data(ar, c, s, u);
+                if back != b {
+                    out.oracle_fail("extract-roundtrip", line);
+                }
+                format!("{} {} {} {} {}", ar, c.as_u64(), s.as_u64(), u.as_u64(), hex(back.as_slice()))
+            }
+            "occupied" => {
+                let cell = parse_cell(&ts[1].split(':').collect::<Vec<_>>());
+                let output = build_output(&cell, false, false, &self.consensus);
+                let mut meta = CellMetaBuilder::from_cell_output(output, Bytes::new()).build();
+                meta.data_bytes = cell.data_bytes;
+                match guarded(|| meta.occupied_capacity().map_err(Into::into)) {
+                    Ok(v) => {
+                        if v.as_u64() as u128 != occ128(&cell) {
+                            out.oracle_fail("occupied", line);
+                        }
+                        format!("ok {}", v.as_u64())
+                    }
+                    Err(e) => e.into(),
+                }
+            }
+            "withdraw" => {
+                let cell = parse_cell(&ts[1].split(':').collect::<Vec<_>>());
+                let (dn, da, wn, wa) = (num(ts[2]), num(ts[3]), num(ts[4]), num(ts[5]));
+                let mut dl = MockDL::default();
+                let dep = dao_header(dn, da, 1);
+                let wd = dao_header(wn, wa, 2);
+                dl.headers.insert(dep.hash(), dep.clone());
+                dl.headers.insert(wd.hash(), wd.clone());
+                let output = build_output(&cell, true, false, &self.consensus);
+                let consensus = &self.consensus;
+                let r = guarded(|| {
+                    let calc = DaoCalculator::new(consensus, &dl);
+                    let dc = Capacity::bytes(cell.data_bytes as usize)?;
+                    calc.calculate_maximum_withdraw(&output, dc, &dep.hash(), &wd.hash())
+                });
+                match r {
+                    Ok(v) => {
+                        // oracle: occupied + floor(counted * AR_w / AR_d), within the u64 domain
+                        let occ = occ128(&cell);
+                        let cap = cell.cap as u128;
+                        if cap < occ || da == 0 || dn >= wn {
+                            out.oracle_fail("withdraw-domain", line);
+                        } else {
+                            let q = (cap - occ) * wa as u128 / da as u128;
+                            if q < (1u128 << 64) {
+                                if v.as_u64() as u128 != q + occ {
+                                    out.oracle_fail("withdraw-formula", &format!("{} got={}", line, v));
+                                }
+                                if wa >= da && (v.as_u64() as u128) < cap {
+                                    out.oracle_fail("withdraw-below-deposit", line);
+                                }
+                            } else {
+                                out.count("withdraw-quotient-beyond-u64");
+                            }
+                        }
+                        format!("ok {}", v.as_u64())
+                    }
+                    Err(e) => e.into(),
+                }
+            }
+            "fee" => {
+                let tx = parse_tx(ts[1]);
+                let mut dl = MockDL::default();
+                let rtx = build_rtx(&tx, &self.consensus, &mut dl);
+                let consensus = &self.consensus;
+                match guarded(|| DaoCalculator::new(consensus, &dl).transaction_fee(&rtx)) {
+                    Ok(v) => {
+                        if let Some((ins, _, _)) = spec_tx_totals(&[tx.clone()]) {
+                            let outs: u128 = tx.outs.iter().map(|o| o.cap as u128).sum();
+                            if ins.0 < outs || v.as_u64() as u128 != ins.0 - outs {
+                                out.oracle_fail("tx-fee", line);
+                            }
+                        }
+                        format!("ok {}", v.as_u64())
+                    }
+                    Err(e) => e.into(),
+                }
+            }
+            "primary" => {
+                let (st, len, base, rem, n) = (num(ts[1]), num(ts[2]), num(ts[3]), num(ts[4]), num(ts[5]));
+                let mut dl = MockDL::default();
+                let target = HeaderBuilder::default().number(n).build();
+                dl.epochs.insert(target.hash(), epoch_ext(st, len, base, rem));
+                let consensus = &self.consensus;
+                match guarded(|| DaoCalculator::new(consensus, &dl).primary_block_reward(&target)) {
+                    Ok(v) => {
+                        if v.as_u64() as u128 != spec_g(st, rem, base, n) {
+                            out.oracle_fail("primary", line);
+                        }
+                        format!("ok {}", v.as_u64())
+                    }
+                    Err(e) => e.into(),
+                }
+            }
+            "secondary" => {
+                let (ser, st, len, base, rem, n, pc, pu) =
+                    (num(ts[1]), num(ts[2]), num(ts[3]), num(ts[4]), num(ts[5]), num(ts[6]), num(ts[7]), num(ts[8]));
+                let mut dl = MockDL::default();
+                let parent = HeaderBuilder::default()
+                    .number(n.saturating_sub(1))
+                    .dao(pack_dao_data(0, Capacity::shannons(pc), Capacity::zero(), Capacity::shannons(pu)))
+                    .build();
+                let target = HeaderBuilder::default().number(n).parent_hash(parent.hash()).build();
+                dl.headers.insert(parent.hash(), parent.clone());
+                dl.epochs.insert(target.hash(), epoch_ext(st, len, base, rem));
+                let mut consensus = self.consensus.clone();
+                consensus.secondary_epoch_reward = Capacity::shannons(ser);
+                match guarded(|| DaoCalculator::new(&consensus, &dl).secondary_block_reward(&target)) {
+                    Ok(v) => {
+                        let expect = if n == 0 {
+                            Some(0)
+                        } else if pc == 0 {
+                            None
+                        } else {
+                            spec_g2(st, len, ser, n).map(|g2| g2 * pu as u128 / pc as u128)
+                        };
+                        if expect != Some(v.as_u64() as u128) {
+                            out.oracle_fail("secondary", line);
+                        }
+                        format!("ok {}", v.as_u64())
+                    }
+                    Err(e) => e.into(),
+                }
+            }
+            "dao" => {
+                let v: Vec<u64> = ts[1..11].iter().map(|s| num(s)).collect();
+                let (ser, st, len, base, rem, pn, ar, c, s, u) = (v[0], v[1], v[2], v[3], v[4], v[5], v[6], v[7], v[8], v[9]);
+                let txs = parse_txs(ts[11]);
+                let mut dl = MockDL::default();
+                let mut consensus = self.consensus.clone();
+                consensus.secondary_epoch_reward = Capacity::shannons(ser);
+                let rtxs: Vec<ResolvedTransaction> = txs.iter().map(|t| build_rtx(t, &consensus, &mut dl)).collect();
+                let parent = HeaderBuilder::default()
+                    .number(pn)
+                    .dao(pack_dao_data(ar, Capacity::shannons(c), Capacity::shannons(s), Capacity::shannons(u)))
+                    .build();
+                let ep = epoch_ext(st, len, base, rem);
+                let r = guarded(|| DaoCalculator::new(&consensus, &dl).dao_field_with_current_epoch(rtxs.iter(), &parent, &ep));
+                match r {
+                    Ok(b) => {
+                        let (ar2, c2, s2, u2) = extract_dao_data(b.clone());
+                        let (c2, s2, u2) = (c2.as_u64(), s2.as_u64(), u2.as_u64());
+                        oracle_dao(out, line, (ser, st, len, base, rem, pn), (ar, c, s, u), &txs, (ar2, c2, s2, u2));
+                        format!("ok {} {} {} {} {}", hex(b.as_slice()), ar2, c2, s2, u2)
+                    }
+                    Err(e) => e.into(),
+                }
+            }
+            "cfg" => {
+                let (cl, far, n, d, ser) = (num(ts[1]), num(ts[2]), num(ts[3]), num(ts[4]), num(ts[5]));
+                assert!(cl <= far, "malformed window");
+                let mut consensus = ConsensusBuilder::default().tx_proposal_window(ProposalWindow(cl, far)).build();
+                consensus.proposer_reward_ratio = Ratio::new(n, d);
+                consensus.secondary_epoch_reward = Capacity::shannons(ser);
+                self.consensus = consensus;
+                self.cfg = (cl, far, n, d, ser);
+                self.blocks.clear();
+                self.rewards.clear();
+                self.salt += 1;
+                "ok".into()
+            }
+            "blk" => {
+                let n = num(ts[1]);
+                assert!(n as usize == self.blocks.len(), "malformed: block numbers must be consecutive");
+                let props = parse_nums(ts[2]);
+                let uprops = parse_nums(ts[3]);
+                let ids = parse_nums(ts[4]);
+                let fees = parse_nums(ts[5]);
+                let v: Vec<u64> = ts[6..14].iter().map(|s| num(s)).collect();
+                let salt = self.salt;
+                let parent_hash = if n == 0 { Byte32::zero() } else { self.blocks[n as usize - 1].block.hash() };
+                let header = HeaderBuilder::default()
+                    .number(n)
+                    .parent_hash(parent_hash)
+                    .timestamp(salt * 1_000_000 + n)
+                    .dao(pack_dao_data(v[4], Capacity::shannons(v[5]), Capacity::shannons(v[6]), Capacity::shannons(v[7])))
+                    .build();
+                let lock = Script::new_builder().args(Bytes::from(n.to_le_bytes().to_vec()).pack()).build();
+                let witness = CellbaseWitness::new_builder().lock(lock).message(Bytes::from(vec![1u8, 2, 3]).pack()).build();
+                let cellbase = TransactionBuilder::default()
+                    .input(CellInput::new_cellbase_input(n))
+                    .witness(witness.as_bytes().pack())
+                    .build();
+                let mut bb = BlockBuilder::default().header(header).transaction(cellbase);
+                for id in &ids {
+                    bb = bb.transaction(id_tx(*id));
+                }
+                bb = bb.proposals(props.iter().map(|i| id_tx(*i).proposal_short_id()).collect::<Vec<_>>());
+                // the uncles' proposals: alternately into up to two uncles
+                let mut us: Vec<Vec<packed::ProposalShortId>> = vec![vec![], vec![]];
+                for (k, i) in uprops.iter().enumerate() {
+                    us[k % 2].push(id_tx(*i).proposal_short_id());
+                }
+                for (k, u) in us.into_iter().enumerate() {
+                    if !u.is_empty() {
+                        let ub = BlockBuilder::default()
+                            .header(HeaderBuilder::default().number(n).timestamp(salt * 1_000_000 + 500_000 + k as u64).build())
+                            .proposals(u)
+                            .build();
+                        bb = bb.uncle(ub.as_uncle());
+                    }
+                }
+                let block = bb.build();
+                let ext = BlockExt {
+                    received_at: 0,
+                    total_difficulty: Default::default(),
+                    total_uncles_count: 0,
+                    verified: Some(true),
+                    txs_fees: fees.iter().map(|f| Capacity::shannons(*f)).collect(),
+                    cycles: None,
+                    txs_sizes: None,
+                };
+                let dir = out.dir.clone();
+                let store = self.store(&dir);
+                let txn = store.begin_transaction();
+                txn.insert_block(&block).unwrap();
+                txn.attach_block(&block).unwrap();
+                txn.insert_block_ext(&block.hash(), &ext).unwrap();
+                txn.insert_block_epoch_index(&block.hash(), &block.hash()).unwrap();
+                txn.insert_epoch_ext(&block.hash(), &epoch_ext(v[0], v[1], v[2], v[3])).unwrap();
+                txn.commit().unwrap();
+                let mut all: HashSet<u64> = props.iter().cloned().collect();
+                all.extend(uprops.iter().cloned());
+                self.blocks.push(BlkInfo { block, props: all, ids, fees, epoch: (v[0], v[1], v[2], v[3]), dao: (v[4], v[5], v[6], v[7]) });
+                "ok".into()
+            }
+            "reward" => {
+                let p = num(ts[1]);
+                assert!((p as usize) < self.blocks.len(), "malformed: unknown parent");
+                let parent = self.blocks[p as usize].block.header();
+                let consensus = self.consensus.clone();
+                let dir = out.dir.clone();
+                let store = self.store(&dir);
+                let r = guarded(|| RewardCalculator::new(&consensus, store).block_reward_to_finalize(&parent));
+                match r {
+                    Ok((lock, br)) => {
+                        let args = lock.args().raw_data();
+                        let target = if args.len() == 8 {
+                            let mut b = [0u8; 8];
+                            b.copy_from_slice(&args);
+                            u64::from_le_bytes(b)
+                        } else {
+                            u64::MAX
+                        };
+                        self.oracle_reward(out, p, target, &br);
+                        format!(
+                            "ok target={} total={} primary={} secondary={} txfee={} proposal={}",
+                            target,
+                            br.total.as_u64(),
+                            br.primary.as_u64(),
+                            br.secondary.as_u64(),
+                            br.tx_fee.as_u64(),
+                            br.proposal_reward.as_u64()
+                        )
+                    }
+                    Err(e) => e.into(),
+                }
+            }
+            other => panic!("malformed op {other}"),
+        }
+    }
+
+    /// The property evaluated on the implementation's answer for `block_reward_to_finalize(p)`.
+    fn oracle_reward(&mut self, out: &mut Out, p: u64, target: u64, br: &ckb_types::core::BlockReward) {
+        let (cl, far, n, d, ser) = self.cfg;
+        let t = (p + 1).saturating_sub(far + 1);
+        if target != t {
+            out.oracle_fail("reward-target", &format!("p={} target={} expected={}", p, target, t));
+            return;
+        }
+        let (total, primary, secondary, txfee, proposal) = (
+            br.total.as_u64() as u128,
+            br.primary.as_u64() as u128,
+            br.secondary.as_u64() as u128,
+            br.tx_fee.as_u64() as u128,
+            br.proposal_reward.as_u64() as u128,
+        );
+        // nothing else mints: the total is exactly the four parts
+        if total != primary + secondary + txfee + proposal {
+            out.oracle_fail("reward-total", &format!("p={} total={} parts={}+{}+{}+{}", p, total, primary, secondary, txfee, proposal));
+        }
+        if d == 0 || n > d {
+            return;
+        }
+        let share = |fee: u64| fee as u128 * n as u128 / d as u128;
+        let tb = &self.blocks[t as usize];
+        // committer share of the target's own fees
+        let spec_txfee: u128 = tb.fees.iter().map(|f| *f as u128 - share(*f)).sum();
+        if txfee != spec_txfee {
+            out.oracle_fail("reward-txfee", &format!("p={} txfee={} spec={}", p, txfee, spec_txfee));
+        }
+        // primary / secondary issuance of the target
+        let (st, len, base, rem) = tb.epoch;
+        if primary != spec_g(st, rem, base, t) {
+            out.oracle_fail("reward-primary", &format!("p={} primary={}", p, primary));
+        }
+        let spec_sec = if t == 0 {
+            Some(0)
+        } else {
+            let (_, pc, _, pu) = self.blocks[t as usize - 1].dao;
+            if pc == 0 { None } else { spec_g2(st, len, ser, t).map(|g2| g2 * pu as u128 / pc as u128) }
+        };
+        if spec_sec != Some(secondary) {
+            out.oracle_fail("reward-secondary", &format!("p={} secondary={} spec={:?}", p, secondary, spec_sec));
+        }
+        // proposer share: only for blocks with a finalisation target, on chains that commit an id at most once
+        let mut seen = HashSet::new();
+        let unique = self.blocks.iter().all(|b| b.ids.iter().all(|i| seen.insert(*i)));
+        let aligned = self.blocks.iter().all(|b| b.ids.len() == b.fees.len());
+        if p + 1 > far + 1 && unique && aligned {
+            let mut spec_prop: u128 = 0;
+            for c in (t + cl)..=(t + far).min(p) {
+                let cb = &self.blocks[c as usize];
+                for (id, fee) in cb.ids.iter().zip(cb.fees.iter()) {
+                    let lo = c.saturating_sub(far).max(1);
+                    let hi = c.saturating_sub(cl);
+                    let earliest = (lo..=hi).find(|q| self.blocks[*q as usize].props.contains(id));
+                    if earliest == Some(t) {
+                        spec_prop += share(*fee);
+                    }
+                }
+            }
+            if proposal != spec_prop {
+                out.oracle_fail("reward-proposal", &format!("p={} proposal={} spec={}", p, proposal, spec_prop));
+            }
+            self.rewards.insert(t, (txfee, proposal));
+            // fees are never over-distributed: over the targets answered so far
+            let paid: u128 = self.rewards.values().map(|(a, b)| a + b).sum();
+            let all: u128 = self.blocks.iter().flat_map(|b| b.fees.iter()).map(|f| *f as u128).sum();
+            if paid > all {
+                out.oracle_fail("fees-over-distributed", &format!("paid={} fees={}", paid, all));
+            }
+        }
+    }
+}
+
+/// the transaction standing for id `i` (its proposal short id is the model's id `i`)
+fn id_tx(i: u64) -> TransactionView {
+    TransactionBuilder::default()
+        .version(((i + 1000) as u32).pack())
+        .build()
+}
+
+/// (Σ maximum withdraw, Σ input capacity), Σ freed occupied, Σ added occupied — spec reading;
+/// `None` outside the domain (capacity below occupied, zero deposit rate, quotient beyond u64).
+fn spec_tx_totals(txs: &[TxS]) -> Option<((u128, u128), u128, u128)> {
+    let (mut maxw, mut incap, mut freed, mut added) = (0u128, 0u128, 0u128, 0u128);
+    for t in txs {
+        for i in &t.ins {
+            let cap = i.cell.cap as u128;
+            incap += cap;
+            freed += match i.kind {
+                Kind::Sat => cap * 6 / 10, // RFC: the satoshi gift cell counts 60 % occupied
+                _ => occ128(&i.cell),
+            };
+            maxw += match i.kind {
+                Kind::W { dn, da, wn, wa } => {
+                    let occ = occ128(&i.cell);
+                    if cap < occ || da == 0 || dn >= wn {
+                        return None;
+                    }
+                    let q = (cap - occ) * wa as u128 / da as u128;
+                    if q >= 1u128 << 64 {
+                        return None;
+                    }
+                    q + occ
+                }
+                _ => cap,
+            };
+        }
+        for o in &t.outs {
+            added += occ128(o);
+        }
+    }
+    Some(((maxw, incap), freed, added))
+}
+
+/// `header.dao = rule(parent.dao)`: C' = C + g + g2, U' = U + added − freed,
+/// S' = S + (g2 − ⌊g2·U/C⌋) − interests, AR' = AR + ⌊AR·g2/C⌋.
+fn oracle_dao(
+    out: &mut Out,
+    line: &str,
+    (ser, st, len, base, rem, pn): (u64, u64, u64, u64, u64, u64),
+    (ar, c, s, u): (u64, u64, u64, u64),
+    txs: &[TxS],
+    (ar2, c2, s2, u2): (u64, u64, u64, u64),
+) {
+    let n = pn as u128 + 1;
+    if c == 0 || len == 0 || n >= 1u128 << 64 {
+        out.oracle_fail("dao-domain", line);
+        return;
+    }
+    let n = n as u64;
+    let g = spec_g(st, rem, base, n);
+    let g2 = spec_g2(st, len, ser, n).unwrap();
+    let Some(((maxw, incap), freed, added)) = spec_tx_totals(txs) else {
+        out.count("dao-oracle-skipped-withdraw-domain");
+        return;
+    };
+    let miner = g2 * u as u128 / c as u128;
+    let mut bad = vec![];
+    if c2 as u128 != c as u128 + g + g2 {
+        bad.push("C");
+    }
+    if u2 as u128 + freed != u as u128 + added {
+        bad.push("U");
+    }
+    if miner > g2 || maxw < incap || s2 as u128 + (maxw - incap) != s as u128 + (g2 - miner) {
+        bad.push("S");
+    }
+    if ar2 as u128 != ar as u128 + ar as u128 * g2 / c as u128 {
+        bad.push("AR");
+    }
+    if ar2 < ar {
+        bad.push("AR-monotone");
+    }
+    if !bad.is_empty() {
+        out.oracle_fail("dao-rule", &format!("fields={} {}", bad.join(","), line));
+    }
+}
+
+// ------------------------------------------------------------------------------------ generators
+
+/// boundary-biased u64
+fn bnum(rng: &mut Rng) -> u64 {
+    match rng.below(12) {
+        0 => 0,
+        1 => 1,
+        2 => rng.below(20),
+        3 => u64::MAX - rng.below(3),
+        4 => (1u64 << rng.range(1, 63)).wrapping_add(rng.below(3)).wrapping_sub(1),
+        5 => rng.below(1000) * 100_000_000,
+        6 => rng.next(),
+        7 => rng.next() >> rng.below(64),
+        _ => rng.below(1_000_000),
+    }
+}
+
+fn fee_like(rng: &mut Rng) -> u64 {
+    match rng.below(10) {
+        0 => 0,
+        1 => 1,
+        2 => 9,
+        3 => 10,
+        4 => rng.range(2, 30),
+        5 => u64::MAX / 4 + rng.below(3) - 1, // fee * 4 at the u64 edge
+        6 => bnum(rng),
+        _ => rng.below(100_000),
+    }
+}
+
+fn gen_cell(rng: &mut Rng, for_output: bool) -> CellS {
+    let lock_args = *rng.pick(&[0u64, 20, 20, 32, 1, 100]);
+    let type_args = if rng.chance(1, 3) { Some(*rng.pick(&[0u64, 20, 32])) } else { None };
+    let data_bytes = match rng.below(10) {
+        0 => 0,
+        1 => 8,
+        2 if !for_output => *rng.pick(&[184_467_440_737u64, 184_467_440_738, u64::MAX, 1u64 << 40]),
+        _ => rng.below(300),
+    };
+    let mut c = CellS { cap: 0, lock_args, type_args, data_bytes };
+    let occ = occ128(&c);
+    c.cap = match rng.below(10) {
+        0 => occ.min(u64::MAX as u128) as u64,                       // occupied = capacity
+        1 => (occ.min(u64::MAX as u128) as u64).saturating_sub(1),   // one below
+        2 => bnum(rng),
+        _ => (occ.min(1u128 << 62) as u64) + rng.below(2_000_000) * 100_000 + rng.below(10),
+    };
+    c
+}
+
+fn gen_ar(rng: &mut Rng) -> u64 {
+    match rng.below(10) {
+        0 => 0,
+        1 => 1,
+        2 => bnum(rng),
+        _ => 10_000_000_000_000_000 + rng.below(1_000_000_000_000_000),
+    }
+}
+
+fn gen_input(rng: &mut Rng) -> InS {
+    let mut cell = gen_cell(rng, false);
+    let kind = match rng.below(12) {
+        0 | 1 | 2 | 3 => Kind::Plain,
+        4 => Kind::Deposit,
+        5 => Kind::Sat,
+        6 => Kind::G1,
+        7 => Kind::G2,
+        8 => Kind::G3,
+        _ => {
+            let da = gen_ar(rng);
+            let wa = match rng.below(6) {
+                0 => da,
+                1 => da.saturating_sub(rng.below(1000)),
+                2 => gen_ar(rng),
+                _ => da.saturating_add(rng.below(1_000_000_000_000)),
+            };
+            let dn = rng.below(1000);
+            let wn = match rng.below(8) {
+                0 => dn,
+                1 => dn.saturating_sub(1),
+                _ => dn + 1 + rng.below(1000),
+            };
+            Kind::W { dn, da, wn, wa }
+        }
+    };
+    match kind {
+        Kind::Sat | Kind::G1 | Kind::G2 => cell.lock_args = 20,
+        Kind::Deposit | Kind::W { .. } => {
+            if cell.type_args.is_none() {
+                cell.type_args = Some(0);
+            }
+            if rng.chance(9, 10) {
+                cell.data_bytes = 8;
+            }
+            if rng.chance(4, 5) {
+                cell.cap = (occ128(&cell).min(1u128 << 62) as u64) + rng.below(1_000_000) * 100_000_000;
+            }
+        }
+        _ => {}
+    }
+    InS { cell, kind }
+}
+
+fn gen_tx(rng: &mut Rng) -> TxS {
+    let ni = rng.below(4);
+    let no = rng.below(4);
+    TxS {
+        ins: (0..ni).map(|_| gen_input(rng)).collect(),
+        outs: (0..no).map(|_| gen_cell(rng, true)).collect(),
+    }
+}
+
+/// epoch parameters + a block number at / next to the remainder boundaries
+fn gen_epoch_and_number(rng: &mut Rng, ser: u64) -> (u64, u64, u64, u64, u64) {
+    let start = match rng.below(8) {
+        0 => 0,
+        1 => u64::MAX - rng.below(2000),
+        _ => rng.below(1_000_000),
+    };
+    let len = match rng.below(10) {
+        0 => 0,
+        1 => 1,
+        _ => rng.range(1, 2000),
+    };
+    let base = match rng.below(10) {
+        0 => u64::MAX,
+        1 => 0,
+        _ => rng.below(200_000_000_000),
+    };
+    let rem = match rng.below(8) {
+        0 => 0,
+        1 => bnum(rng),
+        _ => rng.below(len.max(1)),
+    };
+    let r2 = if len == 0 { 0 } else { ser % len };
+    let n = match rng.below(10) {
+        0 => start,
+        1 => start.saturating_sub(1),
+        2 => start.saturating_add(rem),
+        3 => start.saturating_add(rem).saturating_sub(1),
+        4 => start.saturating_add(r2),
+        5 => start.saturating_add(r2).saturating_sub(1),
+        6 => start.saturating_add(len).saturating_sub(1),
+        7 => 0,
+        _ => start.saturating_add(rng.below(len.max(1))),
+    };
+    (start, len, base, rem, n)
+}
+
+fn gen_ser(rng: &mut Rng) -> u64 {
+    match rng.below(8) {
+        0 => 0,
+        1 => bnum(rng),
+        _ => 61_369_863_013_698 + rng.below(1000),
+    }
+}
+
+/// parent (ar, c, s, u)
+fn gen_dao(rng: &mut Rng) -> (u64, u64, u64, u64) {
+    let c = match rng.below(12) {
+        0 => 0,
+        1 => 1,
+        2 => bnum(rng),
+        3 => u64::MAX - rng.below(100_000_000_000_000),
+        _ => 3_360_000_000_000_000_000 + rng.below(1_000_000_000_000_000_000),
+    };
+    let u = match rng.below(10) {
+        0 => 0,
+        1 => c,
+        2 => c.saturating_add(1),
+        3 => bnum(rng),
+        _ => rng.below(c.max(1)),
+    };
+    let s = match rng.below(8) {
+        0 => 0,
+        1 => bnum(rng),
+        _ => rng.below(1_000_000_000_000_000_000),
+    };
+    (gen_ar(rng), c, s, u)
+}
+
+fn gen_arith_op(rng: &mut Rng) -> String {
+    match rng.below(20) {
+        0 | 1 | 2 => {
+            let fee = fee_like(rng);
+            let (n, d) = match rng.below(8) {
+                0 => (rng.below(12), rng.below(12)),
+                1 => (bnum(rng), bnum(rng)),
+                2 => (1, 3),
+                3 => (10, 10),
+                _ => (4, 10),
+            };
+            format!("ratio {} {} {}", fee, n, d)
+        }
+        3 => format!("pack {} {} {} {}", bnum(rng), bnum(rng), bnum(rng), bnum(rng)),
+        4 => {
+            let bytes: Vec<u8> = (0..32).map(|_| if rng.chance(1, 4) { *rng.pick(&[0u8, 255, 1, 128]) } else { rng.below(256) as u8 }).collect();
+            format!("extract {}", hex(&bytes))
+        }
+        5 => format!("occupied {}", fmt_cell(&gen_cell(rng, false))),
+        6 | 7 | 8 => {
+            let i = loop {
+                let i = gen_input(rng);
+                if matches!(i.kind, Kind::W { .. }) {
+                    break i;
+                }
+            };
+            if let Kind::W { dn, da, wn, wa } = i.kind { format!("withdraw {} {} {} {} {}", fmt_cell(&i.cell), dn, da, wn, wa) } else { unreachable!() }
+        }
+        9 | 10 => format!("fee {}", fmt_tx(&gen_tx(rng))),
+        11 => {
+            let (st, len, base, rem, n) = gen_epoch_and_number(rng, 0);
+            format!("primary {} {} {} {} {}", st, len, base, rem, n)
+        }
+        12 | 13 => {
+            let ser = gen_ser(rng);
+            let (st, len, base, rem, n) = gen_epoch_and_number(rng, ser);
+            let (_, c, _, u) = gen_dao(rng);
+            format!("secondary {} {} {} {} {} {} {} {}", ser, st, len, base, rem, n, c, u)
+        }
+        _ => {
+            let ser = gen_ser(rng);
+            let (st, len, base, rem, n) = gen_epoch_and_number(rng, ser);
+            let pn = if rng.chance(1, 40) { u64::MAX } else { n.saturating_sub(1) };
+            let (ar, c, s, u) = gen_dao(rng);
+            let nt = match rng.below(6) {
+                0 => 0,
+                1 | 2 => 1,
+                _ => rng.range(2, 3),
+            };
+            let txs: Vec<TxS> = (0..nt).map(|_| gen_tx(rng)).collect();
+            format!("dao {} {} {} {} {} {} {} {} {} {} {}", ser, st, len, base, rem, pn, ar, c, s, u, fmt_txs(&txs))
+        }
+    }
+}
+
+/// one chain case: cfg, blocks 0..len, then `reward p` for every p (every finalisation offset)
+fn gen_chain_case(rng: &mut Rng) -> Vec<String> {
+    let mut ops = vec![];
+    let close = rng.range(1, 3);
+    let far = close + rng.range(0, 4);
+    let (n, d) = match rng.below(6) {
+        0 => (1, 3),
+        1 => (rng.below(8), rng.range(1, 8)),
+        2 => (10, 10),
+        _ => (4, 10),
+    };
+    let ser = gen_ser(rng);
+    ops.push(format!("cfg {} {} {} {} {}", close, far, n, d, ser));
+    let len = far + 2 + rng.below(2 * far + 6);
+    let mut next_id = 0u64;
+    // ids proposed recently and not yet committed: (id, first proposal block)
+    let mut pending: Vec<(u64, u64)> = vec![];
+    let ep_len = rng.range(1, 8);
+    let ep_rem = rng.below(ep_len + 1);
+    let base = if rng.chance(1, 20) { u64::MAX - rng.below(2) } else { rng.below(1_000_000) };
+    let mut dao = gen_dao(rng);
+    if rng.chance(9, 10) && dao.1 == 0 {
+        dao.1 = 1_000_000;
+    }
+    for b in 0..len {
+        let mut props = vec![];
+        let mut uprops = vec![];
+        let mut ids = vec![];
+        let mut fees = vec![];
+        if b > 0 {
+            // new proposals
+            for _ in 0..rng.below(4) {
+                let id = next_id;
+                next_id += 1;
+                pending.push((id, b));
+                if rng.chance(1, 3) { uprops.push(id) } else { props.push(id) }
+            }
+            // re-proposals of pending ids (inside or outside their window)
+            for (id, _) in pending.clone() {
+                if rng.chance(1, 4) {
+                    if rng.chance(1, 2) { uprops.push(id) } else { props.push(id) }
+                }
+                if rng.chance(1, 12) {
+                    // the same id in the block and in an uncle
+                    props.push(id);
+                    uprops.push(id);
+                }
+            }
+            // commits: mostly inside the window of the first proposal, sometimes anywhere
+            let mut keep = vec![];
+            for (id, at) in pending.clone() {
+                let in_window = b >= at + close && b <= at + far;
+                let commit = if in_window { rng.chance(1, 3) } else { rng.chance(1, 25) };
+                if commit {
+                    ids.push(id);
+                    fees.push(fee_like(rng));
+                } else if b <= at + 2 * far + 2 {
+                    keep.push((id, at));
+                }
+            }
+            pending = keep;
+            // an occasional never-proposed commit
+            if rng.chance(1, 10) {
+                ids.push(next_id);
+                next_id += 1;
+                fees.push(fee_like(rng));
+            }
+            if rng.chance(1, 2) {
+                let mut z: Vec<(u64, u64)> = ids.iter().cloned().zip(fees.iter().cloned()).collect();
+                rng.shuffle(&mut z);
+                ids = z.iter().map(|x| x.0).collect();
+                fees = z.iter().map(|x| x.1).collect();
+            }
+        } else if rng.chance(1, 6) {
+            // proposals in the genesis block
+            let id = next_id;
+            next_id += 1;
+            pending.push((id, 0));
+            props.push(id);
+        }
+        let start = (b / ep_len) * ep_len;
+        // dao of this header: vary u and c mildly so that secondary shares differ per block
+        let (ar, c, s, u) = dao;
+        let c2 = if rng.chance(1, 30) { 0 } else { c.saturating_add(rng.below(1000)) };
+        let u2 = match rng.below(12) {
+            0 => 0,
+            1 => c2,
+            2 => c2.saturating_add(1),
+            _ => u,
+        };
+        ops.push(format!(
+            "blk {} {} {} {} {} {} {} {} {} {} {} {} {}",
+            b, fmt_nums(&props), fmt_nums(&uprops), fmt_nums(&ids), fmt_nums(&fees), start, ep_len, base, ep_rem, ar, c2, s, u2
+        ));
+    }
+    let mut order: Vec<u64> = (0..len).collect();
+    if rng.chance(1, 3) {
+        rng.shuffle(&mut order);
+    }
+    for p in order {
+        ops.push(format!("reward {}", p));
+    }
+    ops
+}
+
+fn fingerprint(answers: &[String]) -> String {
+    let mut h: u64 = 0xcbf29ce484222325;
+    for a in answers {
+        for b in a.bytes() {
+            h = (h ^ b as u64).wrapping_mul(0x100000001b3);
+        }
+        h = (h ^ 0xff).wrapping_mul(0x100000001b3);
+    }
+    format!("{:016x}", h)
+}
+
+pub fn run(opts: &Opts) {
+    std::panic::set_hook(Box::new(|_| {}));
+    let stream = opts.extra.first().map(|s| s.as_str()).unwrap_or("arith").to_string();
+    let mut out = Out::new(&opts.out);
+    let mut ex = Exec::new();
+    let mut run_case = |ex: &mut Exec, out: &mut Out, label: &str, ops: &[String]| {
+        out.begin_case(label);
+        let mut answers = vec![];
+        for op in ops {
+            let r = catch_unwind(AssertUnwindSafe(|| ex.exec(op, out)));
+            let a = match r {
+                Ok(a) => a,
+                Err(_) => {
+                    eprintln!("C06: malformed op or harness failure on: {}", op);
+                    ex.cleanup();
+                    std::process::exit(3);
+                }
+            };
+            let kind = op.split(' ').next().unwrap_or("");
+            let class = if a.starts_with("ok") || a.starts_with("p=") || !a.starts_with(|c: char| c == 'e' || c == 'p') { "ok" } else { a.as_str() };
+            out.count(&format!("{}:{}", kind, class.split(' ').next().unwrap_or("")));
+            out.op(op, &a);
+            answers.push(a);
+        }
+        if answers.iter().any(|a| a.starts_with("ok ")) {
+            out.nontrivial(fingerprint(&answers));
+        }
+    };
+    if let Some(path) = &opts.replay {
+        let lines = read_replay_ops(path);
+        let ops: Vec<String> = lines.into_iter().filter(|l| !l.starts_with("case ")).collect();
+        run_case(&mut ex, &mut out, "replay", &ops);
+    } else {
+        let mut rng = Rng::new(opts.seed);
+        let mult = opts.scale.max(1) * if opts.thorough() { 20 } else { 1 };
+        if stream == "chain" {
+            let cases = 250 * mult;
+            for _ in 0..cases {
+                let ops = gen_chain_case(&mut rng);
+                run_case(&mut ex, &mut out, "chain", &ops);
+            }
+        } else {
+            let cases = 2500 * mult;
+            for _ in 0..cases {
+                let ops: Vec<String> = (0..12).map(|_| gen_arith_op(&mut rng)).collect();
+                run_case(&mut ex, &mut out, "arith", &ops);
+            }
+        }
+    }
+    ex.cleanup();
+    out.finish("a case is non-trivial when at least one op of it was answered `ok …` by the real code (a value was computed, not only errors); distinctness is by the hash of the case's answer sequence");
 }
